@@ -33,6 +33,9 @@ os.environ.setdefault("PYTHONWARNINGS", "ignore")
 import warnings  # noqa: E402
 
 warnings.filterwarnings("ignore")
+import logging  # noqa: E402
+
+logging.disable(logging.CRITICAL)
 
 import sexp  # noqa: E402
 
